@@ -454,12 +454,15 @@ class AhocorasickTokenizer(Tokenizer):
         tokenizer keeps the first, so the order must not depend on set
         iteration (i.e. on the process's hash seed)."""
         unique_extractors = set(self.unfiltered_extractors)
-        for _, extractors in self.case_sensitive_filter.iter(text):
-            unique_extractors.update(extractors)
-        for _, extractors in self.case_insensitive_filter.iter(
-            text.translate(NON_ASCII_CASE_VARIANTS).lower()
-        ):
-            unique_extractors.update(extractors)
+        # a filter built from no strings at all is not a usable automaton
+        if len(self.case_sensitive_filter):
+            for _, extractors in self.case_sensitive_filter.iter(text):
+                unique_extractors.update(extractors)
+        if len(self.case_insensitive_filter):
+            for _, extractors in self.case_insensitive_filter.iter(
+                text.translate(NON_ASCII_CASE_VARIANTS).lower()
+            ):
+                unique_extractors.update(extractors)
         return sorted(
             unique_extractors,
             key=lambda e: self.extractor_positions[id(e)],
